@@ -247,6 +247,14 @@ class Harness(object):
         self.cf.writefile(fn)
         self.cf.readfile(fn)
         os.remove(fn)
+        # the text format keeps six decimals of a column without a known title (what it keeps exactly is the subject
+        # of C18): values that need more come back rounded, and the table then holds the rounded values
+        for t in list(self.model):
+            if t in self.cf.titles:
+                back = [float(x) for x in self.cf.getcolumn(t)]
+                if len(back) == len(self.model[t]) and all(abs(a - b) <= 0.5e-6 * (1 + 1e-9) for a, b in
+                                                           zip(back, self.model[t])):
+                    self.model[t] = back
 
     def op_bad_addcolumn(self, name, extra):
         try:
